@@ -109,6 +109,28 @@ theorem source_ids_exclusive (s : Sys) (hr : TS.Reachable step? HttpConc.init s)
     l1.sid ≠ l2.sid ∧ l1.sid ∉ s.ids.free :=
   ⟨fun e => hne ((BInv.reachable hr).excl r1 r2 l1 l2 h1 h2 e), ((BInv.reachable hr).liveId r1 l1 h1).2⟩
 
+/-- **the real pop**: on a free list without duplicates whose ids are below `sourceSeq` (what every
+    reachable state has), two `getSourceID` calls with no `putSourceID` in between return different
+    ids, however many ids are free. -/
+theorem two_gets_distinct (i : Ids) (hn : i.free.Nodup) (hlt : ∀ x, x ∈ i.free → x < i.seq) :
+    (getId (getId i).2).1 ≠ (getId i).1 := by
+  obtain ⟨g1, g2, g3, g4, _, _, _⟩ := getId_props i hn hlt
+  obtain ⟨_, _, _, _, _, _, h7⟩ := getId_props (getId i).2 g1 g2
+  intro e
+  rcases h7 with h | h
+  · omega
+  · exact g4 (e ▸ h)
+
+example : (getId ⟨[3, 5], 7⟩).1 = 5 ∧ (getId (getId ⟨[3, 5], 7⟩).2).1 = 3 := by decide
+
+/-- **the seeded pop is wrong** (change C11-e: hand out the first free id, drop the last): with two
+    free ids two successive gets return the same id — a free list the invariant allows, reached
+    after two overlapping requests have finished. -/
+theorem mixed_pop_counterexample :
+    ∃ i : Ids, i.free.Nodup ∧ (∀ x, x ∈ i.free → x < i.seq) ∧
+      (getIdMixed (getIdMixed i).2).1 = (getIdMixed i).1 :=
+  ⟨⟨[0, 1], 2⟩, by decide, by decide, by decide⟩
+
 /-- **requests are isolated**: whatever the other requests do in between (any schedule: any
     `List Op`), the events the controller received for a finished request `r` are exactly the
     result of running `r` alone on its own reads (`processBulk all`, i.e. by `http_lines` the lines
